@@ -28,6 +28,7 @@ func genCfg(r *gen.Rand) tcfg {
 	case 3:
 		cfg.SkipFailed, cfg.SkipOK = true, true
 	}
+	cfg.RefStore = cfg.VStore && r.Bool()
 	return cfg
 }
 
